@@ -230,6 +230,13 @@ def unlock_yield_cases(pid, tier, rnd, wide_rnd, huge):
     tys = genconc.genseq.TYPES
     cat_types = tys if tier == "thorough" else [tys[(vlib.SEED + _pidnum(pid) + d) % 6] for d in (0, 3)]
     out = [with_yieldunlock(c) for c in genconc.catalogue(types=cat_types)]
+    # the CURSOR configurations of the catalogue for the other four key types too: a cursor hop
+    # that re-reads `next` after releasing its leaf (R7-C04-a, string.go only) shows only when the
+    # scheduler switches at that Unlock, to a writer parked on that leaf, on a tree of that type
+    if tier != "thorough":
+        rest = [t for t in tys if t not in cat_types]
+        out += [with_yieldunlock(c) for c in genconc.catalogue(types=rest)
+                if any((" ns " in l or l.endswith(" scan") or " scan " in l) for l in c if l.startswith("thread"))]
     # wide_catalogue at order 128: the point-operation configurations (a few hundred schedules
     # each: explored exhaustively, or nearly so, within UY_DFS_MAX) for all six key types, the
     # cursor configurations for one type each (thorough: everything, orders 64 and 256 too)
